@@ -18,7 +18,7 @@ R03.4 every mapped C table is reachable from a decoder entry point, and every
       the RFC prints it only in prose).
 """
 import json, os
-from .. import sx, cfg as cfgm, rfc, decide, roles
+from .. import guards, sx, cfg as cfgm, rfc, decide, roles
 from ..facts import flatten
 from ..pts import PointsTo
 from ..compdb import AnalysisBroken, VERIF
@@ -51,6 +51,8 @@ def setup(rep, tier):
     rep.minimum('R03.6', 6)
     rep.minimum('R03.7', 2)
     rep.minimum('R03.8', 8)
+    rep.minimum('R03.9', 1)
+    rep.minimum('R03.10', 1)
     rep.minimum('R03.4', 2)
     rep.trusted.append('doc/draft-ietf-codec-opus.xml (RFC 6716 source text) as the table oracle')
 
@@ -560,7 +562,49 @@ def r03_7(rep, prog):
                          (odd[0][0], odd[0][1], sorted(sums)), key='fir-pair:%d' % order)
 
 
+# ------------------------------------------------------------------ R03.10
+def r03_10(rep, prog):
+    """the post-filter cross-fades from the old to the new comb filter over the overlap; the cross-fade may be skipped
+    only when the filter did not change at all.  comb_filter() takes the old and new filter as parameter pairs
+    (X0, X1); the condition under which it zeroes `overlap` must contain X0 == X1 for EVERY such pair."""
+    n = 0
+    for f in prog.functions_all:
+        if not f.file.startswith('celt/') or not f.name.startswith('comb_filter') or f.name.endswith('_const_c') or 'const' in f.name:
+            continue
+        names = [q['name'] for q in f.params]
+        pairs = [(a, a[:-1] + '1') for a in names if a.endswith('0') and a[:-1] + '1' in names]
+        if len(pairs) < 2:
+            continue
+        cf = cfgm.CFG(f)
+        ov = [q for q in names if q == 'overlap']
+        zero = [(b, i, s_) for b, i, s_ in cf.positions() if s_[0] == 'assign' and sx.kind(sx.strip(s_[1])) == 'param' and sx.strip(s_[1])[2] == 'overlap' and sx.int_val(sx.strip(s_[2])) == 0]
+        if not zero:
+            continue
+        rep.functions.add(f.name)
+        for b, i, s_ in zero:
+            eqs = set()
+            for c, pol, gb in cfgm.guards_of(cf, b):
+                if c is None:
+                    continue
+                for a in guards.atoms(c, pol):
+                    if a[0] == '==' and isinstance(a[1], tuple) and isinstance(a[2], tuple) and a[1][0] == 'param' and a[2][0] == 'param':
+                        eqs.add(frozenset((names[a[1][1]], names[a[2][1]])))
+            if not eqs:
+                continue     # the `g0 == 0 && g1 == 0` early-out style tests, not the unchanged-filter shortcut
+            n += 1
+            missing = [p for p in pairs if frozenset(p) not in eqs]
+            inst = '%s:%s skips the cross-fade only when old and new filter agree in every parameter' % (prog.config, f.name)
+            where = '%s:%s' % (f.file, sx.line(s_))
+            if missing:
+                rep.violated('R03.10', inst, where, 'the shortcut does not compare %s: two frames with the same period and gain but a different %s jump from one filter to the other without the cross-fade' % (
+                    ', '.join('%s/%s' % p for p in missing), missing[0][0][:-1]), key=f.name + ':unchanged-shortcut')
+            else:
+                rep.holds('R03.10', inst, where, 'compares %s' % ', '.join('%s/%s' % p for p in pairs))
+    return n
+
+
 def check(rep, prog, tier):
+    r03_10(rep, prog)
     tables, digest = rfc.load()
     rep.extra['rfc_tables_parsed'] = len(tables)
     rep.extra['rfc_table_payload_sha256'] = digest
@@ -570,6 +614,9 @@ def check(rep, prog, tier):
     r03_5(rep, prog, tables)
     r03_6(rep, prog)
     r03_7(rep, prog)
+    from . import deadstate
+    if deadstate.check(rep, 'R03.9', prog, 'decoder') == 0 and prog.config.split('+')[0] in ('float', 'fixed'):
+        rep.unresolved('R03.9', 'no written state fields found')
     from . import chanstate
     chanstate.check(rep, 'R03.8', prog, 'celt_decode_with_ec_dred', 'two')
     rep.extra['programs'] = rep.extra.get('programs', 0) + cmp_.n
